@@ -102,6 +102,16 @@ class Histories(Suite):
             last = max([a for a, _ in c["ev"]] + [0])
             c["eos"] = rng.choice([last, last + 1, last + rng.randint(0, P_ := 512), max(last, c["D"] - 1)])
             out.append(c)
+        # a progress callback that is still running when the deadline passes (it takes longer than the
+        # rest of the timeout): the call fails with the timeout AT the deadline all the same (oracle only)
+        for tie in ("events", "timers", "io"):
+            for sleep in (3, 512 + 3, 2 * 512, 5 * 512):
+                for answered in (False, True):
+                    evs = [[5, G.sym_event("G", k=1)]]
+                    if answered:
+                        evs.append([40, {"k": "resp", "id": "$ID", "p": {"v": 1}}])
+                    out.append(G.place({"id": {"s": "abc"}, "method": "tools/call", "params": None, "D": 2 * 512, "tie": tie,
+                                        "progress": True, "cbSleep": sleep, "ev": evs}))
         ctx.exhaustive_parts.append("histories: every word over the 8-symbol alphabet up to the stated length x 8 time patterns")
         return out
 
@@ -118,6 +128,8 @@ class Histories(Suite):
             return None
         if case.get("eos") is not None:
             return None  # end of stream is outside the model's (and the property's) histories: oracle only
+        if case.get("cbSleep"):
+            return None  # the model's callbacks are instantaneous: oracle only
         return H.model_line(case, o)
 
     def model_obs(self, out, case):
@@ -173,7 +185,8 @@ class Histories(Suite):
                 return ("no-timeout", f"outcome {o['outcome']} without any matching response", {"outcome": "timeout"})
             if fm is None and o["t"] != case["D"]:
                 return ("timeout-not-at-deadline", f"no matching response at all, yet the call failed at tick {o['t']} instead of its timeout {case['D']}", {"t": case["D"]})
-            if fm is not None and fm[1] < case["D"]:
+            if fm is not None and fm[1] < case["D"] and not case.get("cbSleep"):
+                # (with a callback that takes time the caller itself keeps the call from reading on)
                 _, a, ev = fm
                 if ev["k"] == "resp" and not (o["outcome"] == "returned" and o.get("p") == ev["p"]):
                     return ("missed-response", f"first matching response {ev} at tick {a} < deadline {case['D']} but outcome is {o['outcome']}", {"outcome": "returned", "p": ev["p"]})
